@@ -43,10 +43,12 @@ COMPONENTS_STUB = ["kernel TCP (SimNet pipes)", "event loop clock/selector (VLoo
                    "TLS client and origin (Python ssl / system OpenSSL over MemoryBIO)"]
 ASSUMPTIONS = ["SimNet pipes are reliable ordered byte streams; virtual time only",
                "certificate serial numbers are drawn from the scenario seed (length determinism)",
-               "after a peer has sent close_notify, delivery of bytes sent to it afterwards is not demanded (prefix only)"]
+               "a peer that shut only its write side (close_notify and/or FIN) keeps reading and is owed every byte the "
+               "other peer sends before closing (reverse tls:// and transparent mode); exception: an HTTP CONNECT tunnel "
+               "has no half-close (the HTTP layer ends the whole tunnel), there only a prefix is demanded"]
 EXPECTED_PROBES = ["data_in_handshake_flight", "multi_record_flight", "cut_flight", "close_notify_end", "fin_end",
                    "other_sends_during_close", "server_data_before_client_tls_done", "mode_connect", "mode_transparent",
-                   "mode_reverse_tls", "tls12_leg"]
+                   "mode_reverse_tls", "tls12_leg", "half_close_other_keeps_sending", "half_close_after_tcp_fin"]
 
 HOST = "o.test"
 ORIGIN_IP = "93.184.216.34"
@@ -113,6 +115,10 @@ def generate(rng, tier):
                    "split_alert": r.random() < 0.3,
                    "other_ops": [_op(r) for _ in range(r.choice([0, 0, 1, 2]))],
                    "other_kind": r.choice(["notify", "fin", "notify_fin"])}
+    # half-close: the closer has only shut its WRITE side and keeps reading; the other peer answers with several
+    # more chunks after it has seen the close (drawn from a site of its own so that older scenarios keep their shape)
+    r2 = rng.at("c14-after")
+    sc["close"]["after_ops"] = [_op(r2) for _ in range(r2.choice([0, 1, 2, 2, 3, 4]))]
     return sc
 
 
@@ -129,7 +135,7 @@ def _total(side, close, me):
         if close.get("tail"):
             n += sum(close["tail"]["sizes"])
     else:
-        for op in close.get("other_ops", []):
+        for op in close.get("other_ops", []) + close.get("after_ops", []):
             n += sum(op["sizes"])
     return n
 
@@ -376,6 +382,12 @@ def _execute(sc):
                 violate("far_side_tls_error", {"closer": A.name, "kind": kind}, f"{B.name} read error {B.end.read_error}")
             elif not compare(dirn, B.end.plain, A.data[:A.pos], "close", True):
                 pass
+        # half-close: A has only shut its write side and keeps reading; B answers with more chunks
+        if close.get("after_ops") and not B.end.read_error:
+            probe("half_close_other_keeps_sending")
+            if kind in ("fin", "notify_fin"):
+                probe("half_close_after_tcp_fin")
+            await B.run_ops(close["after_ops"])
         # B ends as well; A keeps reading until then
         if close["other_kind"] in ("notify", "notify_fin") and not B.end.read_error:
             B.end.send_close_notify()
@@ -388,9 +400,12 @@ def _execute(sc):
                 break
             await asyncio.sleep(0.1)
         rdir = "o2c" if A is C else "c2o"
-        # The statement promises nothing about bytes travelling towards a peer that has already closed its own
-        # sending side (a CONNECT tunnel, for one, turns the half-close into a full close): prefix only.
-        okr = compare(rdir, A.end.plain, B.data[:B.pos], "close", False)
+        # Byte transparency towards a peer that has shut only its WRITE side: A never closed its read side, so every
+        # byte B sent before closing its own write side must arrive.  One exception: an HTTP CONNECT tunnel has no
+        # half-close; the HTTP layer around it turns the end of either direction into the end of the whole tunnel
+        # (HttpStream.passthrough PASSTHROUGH_CLOSE / client EOF), so there only a prefix is owed.
+        full = mode != "connect"
+        okr = compare(rdir, A.end.plain, B.data[:B.pos], "half_close" if full else "close", full)
         if okr and len(A.end.plain) == B.pos and B.pos > sent_at_sync[B.name]:
             probe("reverse_complete_after_first_close")
         if not A.end.closed_in:
@@ -487,6 +502,7 @@ def shrink_candidates(sc):
         if s["close"].get("tail"):
             yield s["close"]["tail"]
         yield from s["close"].get("other_ops", [])
+        yield from s["close"].get("after_ops", [])
     for i, op in enumerate(ops(sc)):
         if len(op["sizes"]) > 1:
             for j in range(len(op["sizes"])):
